@@ -34,7 +34,10 @@ pub fn profile_name() -> &'static str {
 
 /// Run a subject call, turning a panic into Err(message).
 pub fn guarded<T>(f: impl FnOnce() -> T) -> Result<T, String> {
-    catch_unwind(AssertUnwindSafe(f)).map_err(|e| {
+    vkit::out::call_enter();
+    let r = catch_unwind(AssertUnwindSafe(f));
+    vkit::out::call_exit();
+    r.map_err(|e| {
         if let Some(s) = e.downcast_ref::<&str>() {
             s.to_string()
         } else if let Some(s) = e.downcast_ref::<String>() {
